@@ -11,13 +11,32 @@ from .kernel import DrawCap
 
 
 class RngModule(object):
-    """Stands in for the `random` module imported as `rng`."""
+    """Stands in for the `random` module imported as `rng`: `Random(...)` builds a generator owned by the
+    simulator; the module-level functions (`seed`, `random`, `shuffle`, `sample`, `choice`, `randint`, ...)
+    go through one such generator, like the hidden instance of the real module."""
 
     def __init__(self, factory):
         self._factory = factory
+        self._shared = None
 
     def Random(self, *a):
+        r = self._factory()
+        if a and a[0] is not None:
+            r.seed(a[0])                  # an explicit seed is honoured (the counted MT reproduces the real stream)
+        return r
+
+    def SystemRandom(self, *a):
         return self._factory()
+
+    def __getattr__(self, name):
+        if name.startswith("__"):
+            raise AttributeError(name)
+        if self._shared is None:
+            self._shared = self._factory()
+        try:
+            return getattr(self._shared, name)
+        except AttributeError:
+            return getattr(random, name)
 
 
 class MTRandom(random.Random):
